@@ -1,5 +1,6 @@
 //! gvh: verification harness. Calls the real GlareDB code in-process and
 //! prints canonical lines that the driver compares with the Lean model.
+mod castfmt;
 mod rng;
 mod sortkey;
 mod sqlrun;
@@ -14,6 +15,7 @@ fn main() {
     let rc = match args[1].as_str() {
         "sql" => sqlrun::main(rest),
         "sortkey" => sortkey::main(rest),
+        "cast" => castfmt::main(rest),
         other => {
             eprintln!("unknown component {other}");
             2
